@@ -256,6 +256,10 @@ pub fn run(ctx: &Ctx) -> Report {
         Once(usize, u64),
         Persist(usize, u64),
         ShimErr(usize, usize),
+        /// a transport that would fail from the first operation AFTER the last one the fault-free run
+        /// performs (the peer is gone by then), through either entry point: an error that never has
+        /// occasion to happen changes nothing
+        Beyond(usize, u64, bool),
     }
     let mut items = Vec::new();
     for &(ci, b, n, ncb) in &plans {
@@ -270,6 +274,8 @@ pub fn run(ctx: &Ctx) -> Report {
         for c in 0..ncb {
             items.push(W::ShimErr(ci, c));
         }
+        items.push(W::Beyond(ci, n, false));
+        items.push(W::Beyond(ci, n, true));
     }
     let per = 64usize;
     let ncases = (items.len() + per - 1) / per;
@@ -326,6 +332,32 @@ pub fn run(ctx: &Ctx) -> Report {
                     }
                     rep.counters.class(format!("{}: {} fault on {:?} -> {}", name, what, obs.world.fault_op, obs.outcome.class()));
                     check_fault_run(name, &obs, what, rep, &d);
+                }
+                W::Beyond(ci, n, stream) => {
+                    let (name, base) = &corp_ref[ci];
+                    let mut clean = base.clone();
+                    clean.via_run_on_stream = stream;
+                    let obs0 = run_case(&clean);
+                    let mut case = clean.clone();
+                    case.fault = Fault { eof_after: None, err_at: Some(obs0.world.nops.max(n)), persistent: true, err_kind: (ci % 3) as u8 };
+                    let obs = run_case(&case);
+                    rep.evaluations += 1;
+                    if harness_panic(&obs, rep) || harness_panic(&obs0, rep) {
+                        continue;
+                    }
+                    let entry = if stream { "run_on_stream" } else { "run_on" };
+                    rep.counters.class(format!("{}: transport dead after the last operation, {}", name, entry));
+                    let d = || J::obj().set("conversation", *name).set("entry_point", entry).set("fault", format!("every transport operation from #{} on fails; the undisturbed run performs {}", obs0.world.nops.max(n), obs0.world.nops)).set("undisturbed_outcome", obs0.outcome.describe()).set("outcome", obs.outcome.describe()).set("faulted_operation", format!("{:?}", obs.world.fault_op));
+                    if obs.outcome != obs0.outcome {
+                        let sig = if let Outcome::Panic { file, line, msg } = &obs.outcome { format!("C19 {} beyond the end", panic_signature(file, *line, msg)) } else { "C19 late-fault-changes-the-result".into() };
+                        rep.violations.push(viol("C19", sig, format!("[{}, {}] with a transport that fails only after the conversation's last operation, the result is {} instead of {} (the extra operation was a {:?})", name, entry, obs.outcome.describe(), obs0.outcome.describe(), obs.world.fault_op), d()));
+                        continue;
+                    }
+                    if obs.output() != obs0.output() || obs.log.cbs.len() != obs0.log.cbs.len() {
+                        rep.violations.push(viol("C19", "C19 late-fault-changes-the-conversation".into(), format!("[{}, {}] a transport that fails only after the last operation changed what was sent or which callbacks ran", name, entry), d()));
+                        continue;
+                    }
+                    rep.counters.inc("faults_beyond_the_end_checked");
                 }
                 W::ShimErr(ci, c) => {
                     let (name, base) = &corp_ref[ci];
@@ -527,7 +559,7 @@ pub fn run(ctx: &Ctx) -> Report {
                     scripts.push(Script::Q(QProg::completed(k as u64, 0)));
                 }
                 let per_cmd = i % 4 != 3;
-                let mut c = super::c18::TlsCase { tls13: rng.bool(), with_cert: rng.chance(1, 4), server_mode: 0, user: b"cutuser".to_vec(), cmds, scripts, first_cut: 0, cycle: if rng.bool() { vec![] } else { vec![rng.range(1, 700) as usize] }, write_limit: usize::MAX, close_notify: false, raw_limit: None, hs_variant: 0, app_override: None, seqs: (1, 2), auth_reject: None, record_per_command: per_cmd, write_fault: None, buffer_writes: rng.bool() };
+                let mut c = super::c18::TlsCase { tls13: rng.bool(), with_cert: rng.chance(1, 4), server_mode: 0, user: b"cutuser".to_vec(), cmds, scripts, first_cut: 0, cycle: if rng.bool() { vec![] } else { vec![rng.range(1, 700) as usize] }, write_limit: usize::MAX, close_notify: false, raw_limit: None, hs_variant: 0, app_override: None, seqs: (1, 2), auth_reject: None, record_per_command: per_cmd, write_fault: None, buffer_writes: rng.bool(), eager_close: false };
                 let dry = match super::c18::run_tls(&tm, &c) {
                     Ok(o) => o,
                     Err(e) => {
@@ -645,7 +677,7 @@ pub fn run(ctx: &Ctx) -> Report {
                     _ => full[..full.len() - 1].to_vec(),
                 };
                 let close_notify = i % 8 < 4;
-                let c = super::c18::TlsCase { tls13: i % 3 != 0, with_cert: false, server_mode: 0, user: b"early-leaver".to_vec(), cmds: vec![], scripts: vec![], first_cut: 0, cycle: if rng.bool() { vec![] } else { vec![rng.range(1, 100) as usize] }, write_limit: usize::MAX, close_notify, raw_limit: None, hs_variant: 0, app_override: Some(app.clone()), seqs: (1, 2), auth_reject: None, record_per_command: false, write_fault: None, buffer_writes: rng.bool() };
+                let c = super::c18::TlsCase { tls13: i % 3 != 0, with_cert: false, server_mode: 0, user: b"early-leaver".to_vec(), cmds: vec![], scripts: vec![], first_cut: 0, cycle: if rng.bool() { vec![] } else { vec![rng.range(1, 100) as usize] }, write_limit: usize::MAX, close_notify, raw_limit: None, hs_variant: 0, app_override: Some(app.clone()), seqs: (1, 2), auth_reject: None, record_per_command: false, write_fault: None, buffer_writes: rng.bool(), eager_close: false };
                 let o = match super::c18::run_tls(&tm, &c) {
                     Ok(o) => o,
                     Err(e) => {
